@@ -228,7 +228,7 @@ class CallMixin:
         self.contract = c; self.defs = dict(self.global_defs); self.defs.update(c.get('defs', {}))
         try:
             for i, src in enumerate(c.get('requires', [])):
-                name, src = src if isinstance(src, tuple) else ('req%d' % i, src)
+                name, src = (src[0], src[1]) if isinstance(src, tuple) else ('req%d' % i, src)
                 t = self.spec_eval(src, q)
                 self.vc('call-pre/%s/%s@%d' % (fn.qualname, name, line), p, t, kind='call-pre', line=line)
             # frame
